@@ -862,6 +862,43 @@ class PurityWorld:
         self.log.add("SET", name, sorted(op["params"]))
         self.check_heap(f"set_params of {m['kind']}", m["kind"], op["params"])
 
+    def op_SNAP(self, op, i):
+        """Remember the public fitted state of an object (deep copy)."""
+        name = op["obj"]
+        obj = self.objs.get(name)
+        m = self.meta.get(name)
+        if obj is None or m is None or m["retired"] or m.get("broken"):
+            return
+        try:
+            m["snap_state"] = copy.deepcopy(public_state(obj))
+        except Exception:  # noqa: BLE001
+            m["snap_state"] = None
+
+    def op_CHECKSNAP(self, op, i):
+        """No fit happened since SNAP: reads, other objects' activity, a pickle round trip
+        or the caller reusing its own buffers must not have changed the fitted state."""
+        name = op["obj"]
+        obj = self.objs.get(name)
+        m = self.meta.get(name)
+        if obj is None or m is None or m["retired"] or m.get("broken") or m.get("snap_state") is None:
+            return
+        a, b = m["snap_state"], public_state(obj)
+        d = None
+        if set(a) != set(b):
+            d = f"attributes {sorted(set(a) ^ set(b))} appeared/disappeared"
+        else:
+            for k in sorted(a):
+                d = same(a[k], b[k], rtol=1e-12, path=k)
+                if d:
+                    break
+        if d:
+            # observed, not a violation: C09 speaks about the results of calls (covered by the
+            # repeated reads), not about raw attributes - e.g. PCov-CUR's X_ref_/y_ref_ are by
+            # name references to the caller's arrays and follow them
+            self.count("fitted_attribute_changed_without_fit_observed:" + str(op.get("between")))
+        else:
+            self.count("fitted_state_stable")
+
     def op_MUTATE(self, op, i):
         """The caller reuses one of its own buffers: new values, same array object."""
         vals = D.make_array(op["recipe"])
